@@ -7,6 +7,7 @@ from hypothesis import strategies as st
 from vf.harness import Check
 from vf.gen import lens as GL
 from vf.gen.build import build
+from vf.gen.edit import edit_strategy, build_with_history, warm_all, ALL_KINDS
 from vf.ref import trace as RT
 from vf.checks.c02 import ray_bundle
 
@@ -28,7 +29,8 @@ class C16(Check):
         return (300, 8) if tier == 'quick' else (3000, 16)
 
     def strategy(self, tier):
-        return st.fixed_dictionaries(dict(spec=GL.lens_spec('intensity'), rays=ray_bundle(), wl=st.integers(0, 3)))
+        return st.fixed_dictionaries(dict(spec=GL.lens_spec('intensity'), rays=ray_bundle(), wl=st.integers(0, 3),
+                                          edit=edit_strategy(ALL_KINDS, p_none=4)))
 
     def describe(self, case):
         s = case['spec']
@@ -38,7 +40,11 @@ class C16(Check):
     def check(self, case, out):
         spec = case['spec']
         out.cls(*GL.spec_classes(spec))
-        o = build(spec)
+        # optionally: query the lens, edit it through the public setters, and only then trace; the model below is the
+        # model of the prescription the Optic has now
+        o, spec, edited = build_with_history(spec, case.get('edit'), warm_all)
+        if edited:
+            out.cls('traced_after_' + case['edit']['kind'] + '_edit')
         w = spec['wls'][case['wl'] % len(spec['wls'])]
         rays = case['rays']
         Hy = np.array([r[0] for r in rays], dtype=float)
